@@ -234,7 +234,7 @@ class FQN:
             ret = _find_obj_fqn(p, name, cls)
             if ret is not None:
                 return ret
-            while hasattr(p, "parent"):
+            while getattr(p, "parent", None) is not None:
                 p = p.parent
                 ret = _find_obj_fqn(p, name, cls)
                 if ret is not None:
